@@ -82,7 +82,7 @@ def rule_R3(sig_contract, body, fired):
         bclose = match_close(body, bopen)
         popen = m.end() - 1
         pclose = match_close(body, popen)
-        req.append(body[popen + 1:pclose].strip())
+        req.append(re.sub(r'\b(?:core::)?mem::size_of::<', 'vstd::layout::size_of::<', body[popen + 1:pclose].strip()))
         body = body[:m.start()] + body[bclose + 1:].lstrip(';')
         fired.append('R3')
     return req, body
@@ -189,7 +189,16 @@ class Gen:
         header = None if header == '-' else header
         it = self.src.find_fn(mod, header, name)
         sig, body = split_fn(strip_docs(it.text))
-        mf = anchor_regex(a_from).search(body)
+        ctx = ''
+        if '^' in a_from:
+            ctx, a_from = a_from.split('^', 1)
+        start_pos = 0
+        if ctx.strip():
+            mc = anchor_regex(ctx.strip()).search(body)
+            if not mc:
+                raise LostAnchor('slice context `%s` not found in %s' % (ctx, path))
+            start_pos = mc.end()
+        mf = anchor_regex(a_from.strip()).search(body, start_pos)
         if not mf:
             raise LostAnchor('slice start `%s` not found in %s' % (a_from, path))
         mt = anchor_regex(a_to).search(body, mf.start())
@@ -222,6 +231,8 @@ class Gen:
                 mm = re.match(r'at\s+(after|before)\s+`([^`]*)`', d)
                 if d.strip() == 'at start':
                     ins = ('start', None, [])
+                elif d.strip() == 'at end':
+                    ins = ('end', None, [])
                 elif not mm:
                     raise TemplateError('bad at: ' + l)
                 else:
@@ -297,6 +308,11 @@ class Gen:
             for pos, a, txt in inserts:
                 if pos == 'start':
                     k = body.index('{') + 1
+                    body = body[:k] + '\n' + '\n'.join(txt) + '\n' + body[k:]
+                    fired.append('R8')
+                    continue
+                if pos == 'end':
+                    k = body.rindex('}')
                     body = body[:k] + '\n' + '\n'.join(txt) + '\n' + body[k:]
                     fired.append('R8')
                     continue
